@@ -534,3 +534,38 @@ Print Assumptions C15_loopback_v6_spellings_partial.
 Example C15_loopback_v6_spellings_partial_nonvacuous :
   all_in BRACKETS [LBR] /\ all_in BRACKETS [RBR] /\ is_loopback (bs "[::1]:443") = true.
 Proof. split; [intros c [<-|[]]; left; reflexivity|]. split; [intros c [<-|[]]; right; left; reflexivity|]. vm_compute. reflexivity. Qed.
+
+(* ---- the tls parsing callback when NO site needs a certificate obtained at startup ---- *)
+
+(* A configuration whose TLS sites all bring their own certificate, are self-signed, load from a directory,
+   are on-demand, or do not qualify: no site is "managed and not on-demand" after the qualification stage.
+   enableAutoHTTPS then changes nothing — but the callback still synthesises the redirects, over ALL sites:
+   the result is makePlaintextRedirects of the marked sites ... *)
+Theorem C15_activate_without_startup_certificate : forall init,
+  no_startup_certificate init ->
+  stage_a init = make_plaintext_redirects (map mark_one init).
+Proof. exact activate_without_startup_certificate. Qed.
+Print Assumptions C15_activate_without_startup_certificate.
+
+(* ... so the redirect clause holds for such configurations exactly as for all others: a host gets its
+   redirect site EXACTLY WHEN it has an eligible TLS site (the iff of C15_redirect_exists_iff), whether or not
+   some unrelated site of the Casketfile is managed *)
+Theorem C15_activate_redirects_without_startup_certificate : forall init,
+  no_startup_certificate init ->
+  exists extra, stage_a init = map mark_one init ++ extra /\
+    (forall r, In r extra -> port r = P80 /\ scheme r = [] /\ en (tls r) = false /\ is_synth r = true) /\
+    NoDup (map host extra) /\
+    forall h, (exists r, In r extra /\ host r = h) <->
+      exists c, In c (map mark_one init) /\ host c = h /\
+        en (tls c) = true /\ nr (tls c) = false /\ port c <> P80 /\ scheme c <> HTTP /\
+        (forall o, In o (map mark_one init) -> host o = h -> port o <> P80) /\
+        (port c = P443 \/ forall o, In o (map mark_one init) -> host o = h -> port o <> P443).
+Proof. exact activate_redirects_without_startup_certificate. Qed.
+Print Assumptions C15_activate_redirects_without_startup_certificate.
+
+(* shop.example.com:8443 { tls cert key }: nothing to obtain, and the redirect site is there *)
+Example C15_activate_without_startup_certificate_nonvacuous :
+  exists init, init_sites [w_manual] = Some init /\
+    forallb (fun s => negb (mg (tls (mark_one s)) && negb (od (tls (mark_one s))))) init = true /\
+    map redir (stage_a init) = [None; Some (bs "8443")].
+Proof. exact activate_without_startup_certificate_witness. Qed.
